@@ -14,6 +14,11 @@
 //	part "names":   every file-name style of an entry (hidden, backup, editor, desktop
 //	                bookkeeping, extensions, case, blank, non-ASCII, long) x every kind, alone
 //	                and before / after an ordinary good entry: "every entry" knows no exempt name;
+//	part "algorithms": every role of a certificate towards the statement (leaf issued by a CA, self-issued leaf signed
+//	                by another key, self-signed non-CA, intermediate CA, self-issued CA signed by another key, root
+//	                CA) x every signature algorithm of algs.go (RSA PKCS#1 / PSS, ECDSA, Ed25519, issuer and subject
+//	                keys of different types, the retired digests SHA-1 and MD5 - properly signed by hand -, and
+//	                identifiers nobody can evaluate), alone and before / after an ordinary good entry x 3 types;
 //	part "paths":   every store type x store name x kind of object found at the store
 //	                path (missing / directory / symlink to a directory / regular file),
 //	                with a fixed good content, x two contents of the alias stores;
@@ -26,7 +31,12 @@
 //	                that is on disk at that moment (E2, histories on one instance). Contents
 //	                before the edit: <= 2 entries (quick) / <= 3 (thorough); histories in which
 //	                every state must be refused are run by thorough up to 2 entries only;
-//	part "path-history": the same with the object at the store path changing its kind.
+//	part "path-history": the same with the object at the store path changing its kind;
+//	part "context": the context handed to GetCertificates (ctx.go): cancelled / past its deadline before the call
+//	                (real contexts), becoming done at the loader's second / third consultation of Err() or Done()
+//	                (scripted contexts: a cancellation that arrives in the middle of a store, no wall clock), and a
+//	                live cancellable one x every content of <= N entries of the first seven kinds x 3 types; for
+//	                the done contexts the same store is loaded once more under a live context by the same object.
 //
 // Every case carries decoy certificates (valid roots) in the parent of the store path
 // (the type directory), in truststore/x509, in a sibling store and in a sibling type, and
@@ -64,6 +74,12 @@
 //     times moved forward (visible to stat) and with them put back (only the content differs);
 //     the two have different key suffixes.
 //   - a panic of the loader is reported as an infrastructure error, not as a violation.
+//   - whether a certificate is "self-signed" is a fact about who made its signature, not about which digest or
+//     padding was used: a non-CA certificate signed by ANOTHER key is bad under every signature algorithm, also under
+//     one the loader's library refuses or is unable to evaluate. A certificate that IS signed by its own key with a
+//     retired digest is good (its refusal is recorded, like every refusal of a valid store).
+//   - the statement knows two results, whatever the caller's context: under a done context a load may fail as a
+//     whole (recorded) or return exactly the certificates of the files; a bad store must still be refused.
 package main
 
 import (
@@ -183,6 +199,9 @@ const (
 )
 
 const coreKinds = kOwnKeyOtherName + 1
+
+// the kinds that go into sequences (parts entries, names); the kinds of algs.go follow them (part algorithms)
+const seqKinds = kIssuerOtherO + 1
 
 const hole = -1 // no entry at this position (removed, or not yet added)
 
@@ -353,6 +372,9 @@ func buildMaterial() error {
 		return err
 	}
 	hidden = map[string]string{}
+	if firstAlgKind == 0 {
+		registerAlgKinds()
+	}
 	mats = make([][]material, len(kinds))
 	for k := range kinds {
 		mats[k] = make([]material, maxPos)
@@ -486,6 +508,9 @@ func buildMaterial() error {
 	}
 	aliasInter = ca("c13 alias store intermediate", 1, issuer).Cert
 	fileAtPath = ca("c13 regular file at the store path", 0, nil).Cert
+	if err := buildAlgMaterial(); err != nil {
+		return err
+	}
 
 	// the labels of the alphabet must be true of the material (checked with crypto/x509 only)
 	ownKey := func(c *x509.Certificate) bool {
@@ -585,6 +610,7 @@ func buildMaterial() error {
 type step struct {
 	Path    string   `json:"path_kind"`
 	Entries []string `json:"entries"` // "" = no entry at this position
+	Ctx     string   `json:"ctx,omitempty"`
 }
 
 type loadCase struct {
@@ -609,6 +635,8 @@ type loadCase struct {
 	// Mtimes: "" = the modification times of the directory and of overwritten files are put back after the
 	// change (only the content differs); "moved" = they are set two seconds later (the change is visible to stat).
 	Mtimes string `json:"mtimes,omitempty"`
+	// Ctx: the context handed to the (first) load, see ctxKinds; "" = context.Background().
+	Ctx string `json:"ctx,omitempty"`
 }
 
 func (c loadCase) String() string {
@@ -616,8 +644,14 @@ func (c loadCase) String() string {
 	if c.AliasContent != "" {
 		s += "|alias=" + c.AliasContent
 	}
+	if c.Ctx != "" {
+		s += "|ctx=" + c.Ctx
+	}
 	for _, t := range c.Then {
 		s += fmt.Sprintf("|then path=%s entries=%s", t.Path, strings.Join(t.Entries, ","))
+		if c.Part == "context" {
+			s += "|ctx=" + t.Ctx
+		}
 	}
 	if c.Mtimes != "" {
 		s += "|mtimes=" + c.Mtimes
@@ -1146,7 +1180,7 @@ type judged struct {
 }
 
 // judge compares one real load with the reference for the state (pathKind, entryNames) of case c.
-func judge(c loadCase, pathKind string, entryNames []string, exp expectation, certs []*x509.Certificate, lerr error, placed []bool, add func(key, format string, a ...any), record func(class string)) (j judged) {
+func judge(c loadCase, pathKind string, ctxKind string, entryNames []string, exp expectation, certs []*x509.Certificate, lerr error, placed []bool, add func(key, format string, a ...any), record func(class string)) (j judged) {
 	tl, _ := lookup(storeTypes, c.Type)
 	nl, _ := lookup(storeNames, c.Name)
 	if lerr != nil {
@@ -1158,6 +1192,12 @@ func judge(c loadCase, pathKind string, entryNames []string, exp expectation, ce
 		}
 		switch exp.Outcome {
 		case "load":
+			if !ctxLive(ctxKind) {
+				// a load given up as a whole because the caller's context is done is one of the two results the statement knows
+				record("recorded:load/refused-valid-store-under-done-context:" + ctxKind)
+				j.class = "refused-under-done-context(allowed)"
+				break
+			}
 			// not demanded by the statement (implication): evidence only
 			record("recorded:load/refused-valid-store:" + tl.Label)
 			j.class = "refused-although-valid(recorded)"
@@ -1249,7 +1289,7 @@ func judge(c loadCase, pathKind string, entryNames []string, exp expectation, ce
 
 func runCase(scratch string, idx int, c loadCase) (res result) {
 	ensureBulk(c.Bulk)
-	steps := append([]step{{c.Path, c.Entries}}, c.Then...)
+	steps := append([]step{{Path: c.Path, Entries: c.Entries, Ctx: c.Ctx}}, c.Then...)
 	ents := make([][]int, len(steps))
 	exps := make([]expectation, len(steps))
 	for si, st := range steps {
@@ -1311,7 +1351,17 @@ func runCase(scratch string, idx int, c loadCase) (res result) {
 				return
 			}
 		}
-		certs, lerr := ts.GetCertificates(context.Background(), truststore.Type(c.Type), c.Name)
+		ctxKind := c.Ctx
+		if si > 0 {
+			ctxKind = st.Ctx
+		}
+		ctx, cancel, err := makeCtx(ctxKind)
+		if err != nil {
+			res.infra = err.Error()
+			return
+		}
+		certs, lerr := ts.GetCertificates(ctx, truststore.Type(c.Type), c.Name)
+		cancel()
 		add := func(key, format string, a ...any) {
 			if c.Prior == 1 {
 				key += ":after-other-loads-on-same-trust-store"
@@ -1323,18 +1373,25 @@ func runCase(scratch string, idx int, c loadCase) (res result) {
 					}
 				}
 			}
-			if si > 0 && c.Part == "history" && c.Mtimes != "moved" {
+			if ctxKind != "" {
+				key += ":context-" + ctxKind
+			}
+			if si > 0 && c.Part == "context" {
+				key += ":reload-after-load-under-" + steps[si-1].Ctx + "-context-on-same-trust-store"
+			} else if si > 0 && c.Part == "history" && c.Mtimes != "moved" {
 				key += ":reload-after-stat-invisible-change-on-same-trust-store"
 			} else if si > 0 {
 				key += ":reload-after-change-on-same-trust-store"
 			}
 			what := fmt.Sprintf(format, a...)
-			if si > 0 {
+			if si > 0 && c.Part == "context" {
+				what = fmt.Sprintf("load %d, same store, after a load under a done context: ", si+1) + what
+			} else if si > 0 {
 				what = fmt.Sprintf("load %d, after the store was changed: ", si+1) + what
 			}
 			res.findings = append(res.findings, finding{key, what + " [" + c.String() + "]"})
 		}
-		j := judge(c, st.Path, st.Entries, exps[si], certs, lerr, placed, add, func(class string) { res.recorded = append(res.recorded, class) })
+		j := judge(c, st.Path, ctxKind, st.Entries, exps[si], certs, lerr, placed, add, func(class string) { res.recorded = append(res.recorded, class) })
 		details = append(details, j.detail)
 		if j.loaded {
 			outcomes = append(outcomes, "loaded")
@@ -1346,6 +1403,9 @@ func runCase(scratch string, idx int, c loadCase) (res result) {
 		if len(steps) == 1 {
 			if j.class != "" {
 				res.class = c.Part + ":" + typeClass + ":" + j.class
+				if c.Part == "context" {
+					res.class = c.Part + ":" + ctxKind + ":" + j.class // all store types in one class
+				}
 			}
 			res.nontrivial = j.nontrivial
 		}
@@ -1354,6 +1414,9 @@ func runCase(scratch string, idx int, c loadCase) (res result) {
 	if len(steps) > 1 {
 		// non-trivial histories: the first load succeeds (there is something to remember) and the change matters
 		res.class = c.Part + ":" + typeClass + ":" + strings.Join(outcomes, "->")
+		if c.Part == "context" {
+			res.class = c.Part + ":" + c.Ctx + "->live:" + strings.Join(outcomes, "->")
+		}
 		res.nontrivial = exps[0].Outcome == "load"
 	}
 	return
@@ -1386,6 +1449,8 @@ func main() {
 	r := hx.New("C13")
 	r.Rule = "part entries: every ordered sequence (= multiset x file-name ordering) of <= N core entry kinds and <= N-1 of all kinds x {ca, signingAuthority, tsa} in store \"s\"; " +
 		"part names: every entry-name style x every kind x {alone, before, after a good entry} x 3 types; " +
+		"part algorithms: every certificate role (6) x every signature algorithm (everyday, mixed key types, retired digests, unevaluable identifiers) x {alone, before, after a good entry} x 3 types; " +
+		"part context: every context kind (done before the call, becoming done at the loader's 2nd / 3rd consultation, live cancellable) x every content of <= N entries of the first seven kinds x 3 types, for done contexts followed by a live load of the same store on the same object; " +
 		"part bulk: stores of 1025 / 10001 (thorough also 65537) valid files, all good and with one bad entry sorting first / last, x 3 types; " +
 		"part paths: every type x name x object-at-store-path x alias-store content with a fixed good content; both on a fresh trust-store object and on one that loaded other stores before; " +
 		"part history: every content of <= M entries x every single in-place edit (replace by every other kind / remove / add) x {modification times moved, put back} x 3 types, all loads on ONE object; " +
@@ -1406,6 +1471,8 @@ func main() {
 		"no entry name is exempt from 'every entry' (hidden, backup, bookkeeping files included); certificates that differ in any byte are different certificates (the alphabet never stores the same certificate twice in one store, so de-duplication of identical certificates is not judged)",
 		"we run as root: permission faults (unreadable file/directory) are not produced",
 		"a panic of the loader is an infrastructure error",
+		"signature-algorithm dimension: the verdict of a certificate role does not depend on the signature algorithm; a non-CA certificate signed by another key is bad also when the algorithm is retired (SHA-1, MD5) or cannot be evaluated (MD2, DSA identifier over an RSA key, private OID); certificates with retired digests are properly signed by hand by the labelled key and the labels are checked with crypto/rsa, crypto/ecdsa, crypto/ed25519; roles that need 'signed by its own key' are not generated for unevaluable identifiers",
+		"context dimension: the statement's two results hold under every context; a done context may make a load of a valid store fail as a whole (recorded:load/refused-valid-store-under-done-context:<kind>), never return a subset, never make a bad store load; scripted contexts count the loader's consultations of Err()/Done() (deterministic), a loader that never consults the context behaves as under context.Background()",
 	}
 	scratch := hx.Scratch()
 	if err := buildMaterial(); err != nil {
@@ -1425,7 +1492,7 @@ func main() {
 	}
 	var cases []loadCase
 	// all kinds up to maxLen-1 entries, the core kinds up to maxLen entries
-	seqs := sequences(len(kinds), maxLen-1)
+	seqs := sequences(seqKinds, maxLen-1)
 	for _, q := range sequences(coreKinds, maxLen) {
 		if len(q) == maxLen {
 			seqs = append(seqs, q)
@@ -1453,7 +1520,7 @@ func main() {
 	// entry names: every name style x every kind, alone and before / after an ordinary good entry
 	for _, t := range storeTypes[:3] {
 		for _, st := range entryStyles[1:] {
-			for k := range kinds {
+			for k := 0; k < seqKinds; k++ {
 				kn := kinds[k].Name
 				cases = append(cases,
 					loadCase{Part: "names", Type: t.Value, Name: "s", Path: "directory", Entries: []string{kn}, Names: []string{st.Style}},
@@ -1463,6 +1530,17 @@ func main() {
 		}
 	}
 	nStyled := len(cases) - nEntries - nPaths
+	// signature algorithms: every role x every algorithm (algs.go), alone and before / after an ordinary good entry
+	for _, t := range storeTypes[:3] {
+		for k := firstAlgKind; k < len(kinds); k++ {
+			kn := kinds[k].Name
+			cases = append(cases,
+				loadCase{Part: "algorithms", Type: t.Value, Name: "s", Path: "directory", Entries: []string{kn}},
+				loadCase{Part: "algorithms", Type: t.Value, Name: "s", Path: "directory", Entries: []string{kn, "pem-ca"}},
+				loadCase{Part: "algorithms", Type: t.Value, Name: "s", Path: "directory", Entries: []string{"pem-ca", kn}})
+		}
+	}
+	nAlg := len(cases) - nEntries - nPaths - nStyled
 	// bulk: large stores (a listing in chunks, a cap on the number of entries, a limit of open files must not cut the
 	// store short): all good, and with one bad entry that sorts first / last
 	bulkSizes := []int{1025, 10001}
@@ -1493,7 +1571,25 @@ func main() {
 		cases = append(cases, c)
 	}
 	cases = append(cases, bulkCases...) // on a fresh trust-store object only
-	nBase := len(cases)
+	// the caller's context: every context kind x every content of <= 3 entries of the first seven kinds (PEM / DER /
+	// multi-certificate / self-signed / leaf / intermediate / garbage); for the done contexts the contents of <= 2
+	// entries again, followed by a load of the SAME store under a live context on the same object
+	ctxSeqs := sequences(kGarbage+1, maxLen)
+	nBeforeCtx := len(cases)
+	for _, t := range storeTypes[:3] {
+		for _, ck := range ctxKinds {
+			for _, q := range ctxSeqs {
+				c := loadCase{Part: "context", Type: t.Value, Name: "s", Path: "directory", Entries: kindNames(q), Ctx: ck}
+				cases = append(cases, c)
+				if !ctxLive(ck) && len(q) <= 2 {
+					c.Then = []step{{Path: "directory", Entries: kindNames(q)}}
+					cases = append(cases, c)
+				}
+			}
+		}
+	}
+	nCtx := len(cases) - nBeforeCtx
+	nBase := len(cases) - nCtx
 	// path histories: the object at the store path changes its kind between two loads on one object
 	for _, t := range storeTypes[:3] {
 		for _, p1 := range pathKinds {
@@ -1501,21 +1597,21 @@ func main() {
 				if p1 == p2 {
 					continue
 				}
-				c := loadCase{Part: "path-history", Type: t.Value, Name: "s", Path: p1, Entries: goodContent, Then: []step{{p2, goodContent}}}
+				c := loadCase{Part: "path-history", Type: t.Value, Name: "s", Path: p1, Entries: goodContent, Then: []step{{Path: p2, Entries: goodContent}}}
 				if r.Thorough() {
-					c.Then = append(c.Then, step{p1, goodContent})
+					c.Then = append(c.Then, step{Path: p1, Entries: goodContent})
 				}
 				cases = append(cases, c)
 			}
 		}
 	}
-	nPathHist := len(cases) - nBase
+	nPathHist := len(cases) - nBase - nCtx
 	nHistSkipped := 0
 	// content histories: one in-place edit between two loads on one object (thorough: and back again)
 	for _, a := range sequences(coreKinds, histLen) {
 		for _, b := range singleEdits(a) {
 			for _, t := range storeTypes[:3] {
-				c := loadCase{Part: "history", Type: t.Value, Name: "s", Path: "directory", Entries: kindNames(a), Then: []step{{"directory", kindNames(b)}}}
+				c := loadCase{Part: "history", Type: t.Value, Name: "s", Path: "directory", Entries: kindNames(a), Then: []step{{Path: "directory", Entries: kindNames(b)}}}
 				if !r.Thorough() || len(a) > 2 {
 					// a history in which every state must be refused cannot turn a remembered answer into an accepted
 					// bad store or a refused good one; thorough keeps them up to two entries (remembered partial reads)
@@ -1527,7 +1623,7 @@ func main() {
 					}
 				}
 				if r.Thorough() {
-					c.Then = append(c.Then, step{"directory", kindNames(a)})
+					c.Then = append(c.Then, step{Path: "directory", Entries: kindNames(a)})
 				}
 				// whatever is fooled by a change that stat can see is also fooled by one it cannot see: the "moved"
 				// variant only tells the two apart (key suffix); quick runs it for contents of <= 1 entry
@@ -1540,7 +1636,7 @@ func main() {
 			}
 		}
 	}
-	nHist := len(cases) - nBase - nPathHist
+	nHist := len(cases) - nBase - nPathHist - nCtx
 	// smallest stores first, across all parts: should the internal deadline strike on a busy machine,
 	// only the largest cases of every part are left out, never a whole part
 	weight := func(c loadCase) int {
@@ -1563,6 +1659,12 @@ func main() {
 	r.Extra["cases_paths_part"] = nPaths
 	r.Extra["cases_names_part"] = nStyled
 	r.Extra["cases_bulk_part"] = nBulk
+	r.Extra["cases_algorithms_part(before_reuse_doubling)"] = nAlg
+	r.Extra["signature_algorithms"] = len(algs) + 1
+	r.Extra["certificate_roles_per_algorithm"] = len(algRoles)
+	r.Extra["entry_kinds_role_x_algorithm"] = len(kinds) - firstAlgKind
+	r.Extra["cases_context_part"] = nCtx
+	r.Extra["context_kinds"] = len(ctxKinds) + 1
 	r.Extra["bulk_store_sizes"] = bulkSizes
 	r.Extra["entry_name_styles"] = len(entryStyles)
 	r.Extra["core_entry_kinds(longest_sequences,histories)"] = coreKinds
